@@ -7,6 +7,7 @@
 //! (internal) sim worker|exec-stdin|shrink-stdin ...
 
 mod bytes;
+mod c06;
 mod cmdsim;
 mod core;
 mod driver;
@@ -20,6 +21,7 @@ use driver::{Dyn, DynEngine};
 
 fn engine_for(prop: &str) -> Option<Box<dyn DynEngine>> {
     Some(match prop {
+        "C06" => Box::new(Dyn(c06::EnvSim)),
         "C11" => Box::new(Dyn(cmdsim::CmdSim)),
         "C13" => Box::new(Dyn(lexsim::LexSim(lexsim::Mode::C13))),
         "C14" => Box::new(Dyn(lexsim::LexSim(lexsim::Mode::C14))),
@@ -27,7 +29,7 @@ fn engine_for(prop: &str) -> Option<Box<dyn DynEngine>> {
     })
 }
 
-pub const ALL_PROPS: &[&str] = &["C11", "C13", "C14"];
+pub const ALL_PROPS: &[&str] = &["C06", "C11", "C13", "C14"];
 
 fn arg_val(args: &[String], name: &str) -> Option<String> {
     args.iter().position(|a| a == name).and_then(|i| args.get(i + 1).cloned())
